@@ -361,7 +361,7 @@ def _reference(chain: List[Dict[str, Any]], timeout: float) -> Dict[str, Any]:
     hit = _REF_CACHE.get(key)
     if hit is not None:
         return hit
-    res = exec_ops(chain)
+    res = kit.in_fresh_thread(exec_ops, chain)
     REF_RUNS += 1
     recs = res["records"]
     for n in range(1, len(chain) + 1):
@@ -374,7 +374,7 @@ def _reference(chain: List[Dict[str, Any]], timeout: float) -> Dict[str, Any]:
 def execute(trace: Dict[str, Any], timeout: float = 60.0) -> Dict[str, Any]:
     """Run one simulated history and decide the oracles.  Called in a template process."""
     ops = trace["ops"]
-    hist = exec_ops(ops)["records"]
+    hist = kit.in_fresh_thread(exec_ops, ops)["records"]
     violations: List[Dict[str, Any]] = []
     stats: Dict[str, int] = {}
     states: List[str] = []
